@@ -58,6 +58,21 @@ func (w *yieldWriter) Write(p []byte) (int, error) {
 	return w.buf.Write(p)
 }
 
+// c10Ctx records what the context handed to its context-aware UnmarshalJSON carries.
+type c10Ctx struct{ Seen string }
+type c10Key struct{}
+
+func (c *c10Ctx) UnmarshalJSON(ctx context.Context, b []byte) error {
+	c.Seen = "no value"
+	if ctx == nil {
+		c.Seen = "nil context"
+	} else if v, ok := ctx.Value(c10Key{}).(string); ok {
+		c.Seen = "value " + v
+	}
+	c.Seen += " " + string(b)
+	return nil
+}
+
 type yieldReader struct {
 	y func(string)
 	r *strings.Reader
@@ -174,6 +189,22 @@ func c10Calls() []c10Call {
 			e := v.E
 			v.E = nil
 			return fmt.Sprintf("%+v %+v %v", v, e, err)
+		}},
+		// distinct Decoders are independent: the context given to one is the context of that one only
+		{"Decoder.DecodeContext(->context-aware unmarshaler, context A)", func(y func(string), sh *c10Shared) string {
+			var v struct{ A c10Ctx }
+			err := json.NewDecoder(&yieldReader{y: y, r: strings.NewReader(`{"A":1}`)}).DecodeContext(context.WithValue(context.Background(), c10Key{}, "A"), &v)
+			return fmt.Sprintf("%+v %v", v, err)
+		}},
+		{"Decoder.DecodeContext(->context-aware unmarshaler, context B)", func(y func(string), sh *c10Shared) string {
+			var v struct{ A c10Ctx }
+			err := json.NewDecoder(&yieldReader{y: y, r: strings.NewReader(`{"A":2}`)}).DecodeContext(context.WithValue(context.Background(), c10Key{}, "B"), &v)
+			return fmt.Sprintf("%+v %v", v, err)
+		}},
+		{"Decoder.Decode(->context-aware unmarshaler)", func(y func(string), sh *c10Shared) string {
+			var v struct{ A c10Ctx }
+			err := json.NewDecoder(&yieldReader{y: y, r: strings.NewReader(`{"A":3}`)}).Decode(&v)
+			return fmt.Sprintf("%+v %v", v, err)
 		}},
 		{"Path.Extract(docA) on the shared Path", func(y func(string), sh *c10Shared) string {
 			r, err := sh.path.Extract([]byte(pathDocA))
